@@ -57,6 +57,18 @@ SubSeqOf(s, t) == IF s = <<>> THEN TRUE
                   ELSE IF t = <<>> THEN FALSE
                   ELSE IF s[1] = t[1] THEN SubSeqOf(Tail(s), Tail(t)) ELSE SubSeqOf(s, Tail(t))
 
+\* the dependency constructors: how the name is decorated and which rpm sense bits are set
+\* (LESS 2, GREATER 4, EQUAL 8, SCRIPT_PRE 2^9, SCRIPT_POST 2^10, SCRIPT_PREUN 2^11, SCRIPT_POSTUN 2^12,
+\*  RPMLIB 2^24, CONFIG 2^28); flags as <<high 16 bits, low 16 bits>>
+DepSense == [ any |-> <<0, 0>>, eq |-> <<0, 8>>, less |-> <<0, 2>>, less_eq |-> <<0, 10>>, greater |-> <<0, 4>>,
+              greater_eq |-> <<0, 12>>, rpmlib |-> <<256, 8>>, config |-> <<4096, 8>>, user |-> <<0, 4608>>,
+              group |-> <<0, 4608>>, script_pre |-> <<0, 512>>, script_post |-> <<0, 1024>>,
+              script_preun |-> <<0, 2048>>, script_postun |-> <<0, 4096>> ]
+DepWrap == [ rpmlib |-> <<114, 112, 109, 108, 105, 98>>, config |-> <<99, 111, 110, 102, 105, 103>>,
+             user |-> <<117, 115, 101, 114>>, group |-> <<103, 114, 111, 117, 112>> ]
+DepName(ctor, n) == IF ctor \in DOMAIN DepWrap THEN DepWrap[ctor] \o <<40>> \o n \o <<41>> ELSE n
+Versioned == {"eq", "less", "less_eq", "greater", "greater_eq", "rpmlib", "config"}
+
 DepsOfKind(cfg, k) == SelectSeq(cfg.deps, LAMBDA d : d.kind = k)
 StripKind(ds) == [i \in 1..Len(ds) |-> [a |-> ds[i].a, b |-> ds[i].b, c |-> ds[i].c]]
 =============================================================================
